@@ -10,6 +10,7 @@ import (
 	"hash/fnv"
 	"math/rand"
 	"os"
+	"runtime"
 	"runtime/debug"
 	"sort"
 	"strconv"
@@ -49,6 +50,8 @@ func envInt(k string, def int) int {
 	}
 	return def
 }
+
+var gcOff = os.Getenv("GOGC") == "off"
 
 // Start opens a run from the environment set by ./check.  When VERIF_OUT is not
 // set (somebody ran `go test` by hand) output goes to stdout.
@@ -125,7 +128,14 @@ func (r *Run) Mine(id string) bool {
 func (r *Run) Begin(id string) {
 	r.mu.Lock()
 	r.evals++
+	n := r.evals
 	r.mu.Unlock()
+	// Deterministic passes run with GOGC=off so that a collection cannot
+	// reschedule goroutines in the middle of a scenario; collect between
+	// scenarios instead, where nothing of the system under test is running.
+	if gcOff && n%64 == 0 {
+		runtime.GC()
+	}
 	if r.cur != nil {
 		b := make([]byte, 512)
 		for i := range b {
